@@ -342,6 +342,17 @@ def real(repo=None, max_cells=60000):
                'properties': list(properties), 'rows': masks}
 
 
+def biglat(tier):
+    """Lattices with tens of thousands of concepts (thorough tier only): Boolean lattices of the
+    contranominal scales 15 and 16 (32 768 / 65 536 concepts) - thresholds inside the
+    enumeration/traversal code (table sizes, heap sizes) are only reached here."""
+    if tier != 'thorough':
+        return
+    for n in (15, 16):
+        full = (1 << n) - 1
+        yield case(f'BIGLAT:contranominal{n}', [full & ~(1 << i) for i in range(n)], n, 'rev')
+
+
 def near(cases_, seed, per=3, tag='NEAR'):
     """One-cell flips and row/column swaps of given cases."""
     rng = random.Random(f'{seed}/{tag}')
